@@ -56,6 +56,24 @@ CHECKS = {
         "and random stop policies, deadlines {none,60,expired} and every child behaviour; signals/time compared "
         "with the stop model, ledger + kernel ground truth after destroy; non-trivial = a destroy was checked",
         {"destroys": 2000, "expected_hangs": 10, "states": 6}, assumptions=KERNEL_TRUST),
+    "C08": scen_check(
+        "eng_poll", "exploration",
+        "reproc_poll over 1-5 sources of kinds {no process, no deadline, deadline +30/+70/+110, expired} in every order "
+        "(thorough: complete kinds^n x timeout grid for n<=3, sampled beyond; quick: complete for n<=2 + sample) with "
+        "timeouts {0,20,60,200,INFINITE} and child output/exit placed before/between/after the bounds, plus a complete "
+        "reproc_wait grid timeout x deadline x exit time; exact virtual return times compared with "
+        "min(timeout, earliest deadline); non-trivial = a poll/wait was compared; distinct = (source kinds in order, timeout, activity)",
+        {"polls_checked": 2500, "expired_deadline_polls": 300, "deadline_events": 200, "timeouts": 200,
+         "wait_timeouts": 100, "expected_hangs": 10}, assumptions=KERNEL_TRUST),
+    "C09": scen_check(
+        "eng_poll", "exploration",
+        "random multi-source polls (1-4 sources incl. process-less ones, all 16 interest masks) over 1-3 children whose "
+        "streams are put in every state (idle, data pending, closed by child, closed by parent, not a pipe, stdin full; "
+        "child running/exited/reaped, fork mode, never started); reported bits compared with ground truth rebuilt from "
+        "child acks and kernel end events; every reported event is probed (read/write/wait(0) must not block); "
+        "non-trivial = a poll was compared",
+        {"polls_checked": 2500, "event_polls": 1000, "probes": 1000, "epipe_expected": 50, "bits_checked": 1500},
+        assumptions=KERNEL_TRUST),
 }
 
 
@@ -79,10 +97,22 @@ MANIFEST_TEXT = {
             "reproc_destroy is observed in every handle state with default and random stop policies; signals, timing, reaping, "
             "ledger emptiness and the null return are checked; expected hangs are matched in zero real time.",
             "unbounded 'does not return until exited' is checked as 'returned only after reaped / hang matched'", "DESIGN.md 3/C15"),
+    "C08": ("poll", "runtime monitor: exact virtual return times vs min(timeout, earliest deadline); kernel ground truth",
+            "Every reproc_poll/reproc_wait return is compared, in exact virtual milliseconds, with the bound the contract gives "
+            "(timeout, earliest deadline among all sources, expired deadlines, until-deadline waits), over complete small grids of "
+            "source kinds in every order and sampled larger ones.",
+            "ties between timeout and deadline are avoided by construction; among several already-expired deadlines any may carry the event",
+            "DESIGN.md 3/C08"),
+    "C09": ("poll", "runtime monitor: reported event bits vs ground-truth stream/process state; probing calls after each event",
+            "Reported bits are compared with the true state of every stream and child (bytes acknowledged written minus read, closes, "
+            "kernel end events) and every reported event is probed by the matching read/write/wait(0), which must not block.",
+            "stdin writability is asserted only when the pipe holds <= 4096 bytes or was filled to EAGAIN (page arithmetic in between is kernel business)",
+            "DESIGN.md 3/C09"),
 }
 
-ENGINE_PATHS = {"life": "eng_life.py"}
+ENGINE_PATHS = {"life": "eng_life.py", "poll": "eng_poll.py"}
 ENGINE_KINDS = {
+    "poll": "scenario runner on a virtual clock; ground-truth stream state model (lib/model_io.py)",
     "life": "scenario runner (src/scen.c) on a virtual clock with scripted helper child; python reference models",
 }
 NOT_APPLICABLE = {}
